@@ -82,6 +82,9 @@ def _purity(ctx, f, width_in, lead_shapes, bits=True, tag="", make=None):
         claims = []
         for pos in np.ndindex(*lead):
             single = ctx.call(f, _member(ctx, x, pos))
+            if not single.ok and single.raised(ValueError, AssertionError, RuntimeError, IndexError, TypeError):
+                # the component rejects an un-batched member (an error, which is acceptable): the member alone is the batch of one
+                single = ctx.call(f, _member(ctx, x, tuple(pos[:-1]) + (slice(pos[-1], pos[-1] + 1),)))
             if not single.ok:
                 claims.append(False)
                 continue
@@ -105,6 +108,8 @@ def _multiblock(ctx, f, width_in, tag="", rows=2, make=None):
         pr, pi = [], []
         for blk in range(2):
             single = ctx.call(f, _member(ctx, x, (b, slice(blk * width_in, (blk + 1) * width_in))))
+            if not single.ok and single.raised(ValueError, AssertionError, RuntimeError, IndexError, TypeError):
+                single = ctx.call(f, _member(ctx, x, (slice(b, b + 1), slice(blk * width_in, (blk + 1) * width_in))))
             if not single.ok:
                 claims.append(False)
                 break
@@ -688,3 +693,39 @@ def demodulators(ctx, vcfg):
         _multiblock(ctx, f, 1, make=mk)
     else:
         _purity(ctx, f, 1, [l for l in LEADS if l[0] == lay], make=mk)
+
+
+# ---------------------------------------------------------------------------------------- soft decoders, symbolic (tiny instances)
+_SOFT_CACHE = {}
+
+
+def _soft_cached(cfg):
+    if cfg not in _SOFT_CACHE:
+        enc, dec = _soft_pair(cfg)
+        _SOFT_CACHE[cfg] = (enc, codes.warm(dec, enc.code_length, soft=True))
+    return _SOFT_CACHE[cfg]
+
+
+def _sym_soft_cfgs(tier):
+    out = [codes.Cfg("wagner", 2), codes.Cfg("wagner", 3), codes.Cfg("sc", 4, 1, "min_sum"), codes.Cfg("sc", 4, 2, "min_sum"), codes.Cfg("sc", 4, 3, "min_sum"), codes.Cfg("rm_soft", 1, 2), codes.Cfg("wagner", 4), codes.Cfg("sc", 8, 4, "min_sum")]
+    if tier == "thorough":
+        out += [codes.Cfg("polar_bp", 4, 2, 0), codes.Cfg("rm_soft", 1, 3), codes.Cfg("sc", 8, 6, "min_sum")]
+    return codes.with_variants(out, ["B2", "Bb"])
+
+
+@obligation("C20.soft_decoders", function=FDS, configs=_sym_soft_cfgs, max_paths=20000, timeout_ms=60000, crosscheck=1)
+def soft_decoders(ctx, vcfg):
+    """for ALL real LLR vectors (symbolic): decode(batch of 2)[i] == decode(member i), repeated call identical, input unmodified;
+    (1, 2n) equals per-block evaluation or raises.  Tiny instances only (every sign decision of the decoder forks, and a batch of
+    two squares the number of paths); larger ones are covered by the bounded C20.soft_decoders_bounded"""
+    from vk import ops_soft as OS
+
+    cfg, lay = codes.split_variant(vcfg)
+    enc, dec = _soft_cached(cfg)
+    n = enc.code_length
+    mk = lambda name, shape: ctx.reals(name, shape)
+    with OS.piecewise(), OS.torch_list_index():
+        if lay == "Bb":
+            _multiblock(ctx, dec.forward, n, rows=1, make=mk)
+        else:
+            _purity(ctx, dec.forward, n, [l for l in LEADS if l[0] == lay], make=mk)
